@@ -244,4 +244,46 @@ def pointName (th : Thread) : Option String :=
   | .bActivate => some (if th.prog = .build then "build.activate" else "rebuild.activate")
   | _ => none
 
+/-! ## the accesses the program counters stand for (names of the T-gen-4 `steps` extractor)
+
+`Props/C02.lean` compares these lists, by `decide`, with the ordered access lists regenerated from
+the Go source on every run (`BoxoModel/Gen/C02.lean`). -/
+
+def accessOf (many : Bool) (prog : Prog) : PC → Option String
+  | .rPtr => some "bloom.Load"
+  | .rActive _ => some "active.Load"
+  | .rRecheck _ => some "bloom.Load"
+  | .rFilter _ => some "filter.Has"
+  | .rPass => match prog with
+    | .read .has _ => some "store.Has"
+    | .read .get _ => some "store.Get"
+    | .read .size _ => some "store.GetSize"
+    | .read .view _ => some "store.View"
+    | .del _ => some "store.Delete"
+    | _ => none
+  | .wStore => some (if many then "store.PutMany" else "store.Put")
+  | .wAdd _ => some "bloom.Load"
+  | .wAdding _ _ => some "filter.Add"
+  | .bLock | .iLock => some "buildMu.Lock"
+  | .bUnlock _ => some "defer buildMu.Unlock"
+  | .bDeact => some "active.Store(false)"
+  | .bSwap => some "bloom.Store"
+  | .iPop => some "bloom.Load"
+  | .bPop | .iSnap _ => some "store.Enum"
+  | .bAdd _ _ _ => some "filter.Add"
+  | .bErrFn _ => some "errFn"
+  | .bActivate => some "active.Store(true)"
+  | .done _ => none
+
+/-- program counters of `hasCached`, `Put`/`PutMany`, `Rebuild`, `build`, `populate` in SOURCE order
+(a deferred unlock is listed where the `defer` statement stands; `populate`'s closed-channel branch
+with `errFn` precedes the `AddTS` of the loop body in the source text) -/
+def pcsHasCached : List PC := [.rPtr, .rActive 0, .rRecheck 0, .rFilter 0]
+def pcsPut : List PC := [.wStore, .wAdd [0], .wAdding 0 [0]]
+def pcsRebuildHead : List PC := [.bLock, .bUnlock .ok, .bDeact, .bSwap]
+def pcsBuildHead : List PC := [.iLock, .bUnlock .ok, .iPop]
+def pcsPopulate : List PC := [.bPop, .bErrFn false, .bAdd 0 [0] false]
+
+def accesses (many : Bool) (prog : Prog) (pcs : List PC) : List String := pcs.filterMap (accessOf many prog)
+
 end C02.Conc
